@@ -8,7 +8,7 @@ func zeroOfKind(k types.BasicKind) value {
 
 // registerFakes declares the dynamic types of stubbed foreign objects.
 func registerFakes(p *Program) {
-	for _, name := range []string{"logr.sink", "rpc2.client", "context.ctx", "prometheus.metric", "time.timer", "lazyjson", "hash.sha256"} {
+	for _, name := range []string{"logr.sink", "rpc2.client", "context.ctx", "prometheus.metric", "time.timer", "lazyjson", "hash.sha256", "net.conn", "rpc2.codec"} {
 		p.fakes[name] = &fakeType{name: name}
 	}
 }
